@@ -3,6 +3,7 @@ package core
 import (
 	"go/token"
 	"go/types"
+	"strings"
 
 	"golang.org/x/tools/go/ssa"
 )
@@ -367,6 +368,10 @@ func RetOrigins(v ssa.Value) []RetOrigin {
 		if v == nil || d > 30 {
 			return
 		}
+		// defer-spilled result: `*slot = x; rundefers; t = *slot; return t`
+		if sv := SpilledValue(v); sv != nil {
+			v = sv
+		}
 		v = Strip(v)
 		if ph, ok := v.(*ssa.Phi); ok {
 			if seen[v] {
@@ -448,6 +453,12 @@ func mayBeSuccessOrigin(fn *ssa.Function, ret *ssa.Return, v ssa.Value, conv Con
 		}
 		if c, ok := v.(*ssa.Call); ok {
 			if ErrCtors[calleeFullRaw(c)] {
+				return false
+			}
+		}
+		// a package-level error variable (ErrFoo = errors.New(..)) is a failure value
+		if u, ok := v.(*ssa.UnOp); ok && u.Op == token.MUL {
+			if g, ok := u.X.(*ssa.Global); ok && conv == ConvErrNil && strings.HasPrefix(g.Name(), "Err") {
 				return false
 			}
 		}
@@ -592,4 +603,32 @@ func InLoop(in ssa.Instruction) bool {
 		}
 		return false
 	}()
+}
+
+// SpilledValue: if v is a load of a local slot that is stored to earlier in
+// the same block (the shape go/ssa gives returns of functions with defers),
+// returns the value of the last such store; otherwise nil.
+func SpilledValue(v ssa.Value) ssa.Value {
+	u, ok := v.(*ssa.UnOp)
+	if !ok || u.Op != token.MUL {
+		return nil
+	}
+	a, ok := u.X.(*ssa.Alloc)
+	if !ok {
+		return nil
+	}
+	b := u.Block()
+	if b == nil {
+		return nil
+	}
+	var last ssa.Value
+	for _, in := range b.Instrs {
+		if in == ssa.Instruction(u) {
+			break
+		}
+		if st, ok := in.(*ssa.Store); ok && st.Addr == ssa.Value(a) {
+			last = st.Val
+		}
+	}
+	return last
 }
